@@ -6,31 +6,56 @@ Import ListNotations.
 From V Require Import lib.Bytes spec.HandlerSpec model.Handler proofs.HandlerProof.
 Open Scope N_scope.
 
-(* For every handler configuration (status set or unset, any content type, no error handler or any
-   error handler whatsoever) with streaming off, and every component outcome (any chunks, then success
-   or failure): the response the client receives is the complete document with the configured status
+(* For every request (any method, protocol version, target, header fields, body; context live, with a
+   deadline, already cancelled or expired), every handler configuration (status set or unset, any content
+   type, no error handler or any error handler whatsoever - a function of the request) with streaming off,
+   and every component (any function from the state of the context it is rendered with to chunks, then
+   success or failure): the response the client receives is the complete document with the configured status
    (200 if unset) and content type when rendering succeeded, and otherwise the error response - status
    500 with the fixed message as un-sniffable plain text, or exactly the response the configured error
    handler produces on its own.  (The specification [all_or_nothing] is spec/HandlerSpec.v.) *)
-Theorem C11_buffered_all_or_nothing : forall (c : cfg) (o : outcome),
+Theorem C11_buffered_all_or_nothing : forall (q : request) (c : cfg) (k : component),
   c_stream c = false ->
-  all_or_nothing (c_status c) (c_ctype c) (eh_alone c) (document o) (fails o) (observe (serve c o)).
+  let o := k (q_ctx q) in
+  all_or_nothing (c_status c) (c_ctype c) (eh_alone q c) (document o) (fails o) (observe (serve q c k)).
 Proof. exact buffered_all_or_nothing. Qed.
 Print Assumptions C11_buffered_all_or_nothing.
 
+(* The same as the client that sent the request observes it: a HEAD is answered with the status line and
+   the header section of the all-or-nothing response and no body, so HEAD and GET of the same resource
+   agree on status and content type; every other method gets the all-or-nothing response itself. *)
+Theorem C11_buffered_all_or_nothing_on_the_wire : forall (q : request) (c : cfg) (k : component),
+  c_stream c = false ->
+  let o := k (q_ctx q) in
+  all_or_nothing_wire (is_head q) (c_status c) (c_ctype c) (option_map (client_view q) (eh_alone q c))
+    (document o) (fails o) (client_view q (observe (serve q c k))).
+Proof. exact buffered_all_or_nothing_wire. Qed.
+Print Assumptions C11_buffered_all_or_nothing_on_the_wire.
+
+(* The handler itself never looks at the request: requests whose contexts are in the same state, and which
+   the configured error handler (if any) does not tell apart, get the same response whatever their method,
+   protocol version, target, header fields and body - buffered or streamed. *)
+Theorem C11_response_independent_of_request : forall (q1 q2 : request) (c : cfg) (k : component),
+  q_ctx q1 = q_ctx q2 ->
+  (forall h w, c_errh c = Some h -> h q1 w = h q2 w) ->
+  serve q1 c k = serve q2 c k.
+Proof. exact response_independent_of_request. Qed.
+Print Assumptions C11_response_independent_of_request.
+
 (* Never document bytes with an error status: once rendering fails, the whole writer state is the same
    whatever the component had written before failing. *)
-Theorem C11_error_response_independent_of_document : forall (c : cfg) (o1 o2 : outcome),
-  c_stream c = false -> fails o1 = true -> fails o2 = true -> serve c o1 = serve c o2.
+Theorem C11_error_response_independent_of_document : forall (q : request) (c : cfg) (k1 k2 : component),
+  c_stream c = false -> fails (k1 (q_ctx q)) = true -> fails (k2 (q_ctx q)) = true -> serve q c k1 = serve q c k2.
 Proof. exact error_response_independent. Qed.
 Print Assumptions C11_error_response_independent_of_document.
 
 (* Never a success status produced by templ with a partial or error body: with no error handler a
    failed render gives 500 and exactly the message; a successful one the whole document and the
    configured status. *)
-Theorem C11_buffered_never_mixed : forall (c : cfg) (o : outcome),
+Theorem C11_buffered_never_mixed : forall (q : request) (c : cfg) (k : component),
   c_stream c = false -> c_errh c = None ->
-  let r := observe (serve c o) in
+  let o := k (q_ctx q) in
+  let r := observe (serve q c k) in
   (fails o = true -> r_status r = 500 /\ r_body r = err_body) /\
   (fails o = false -> r_body r = document o /\ r_status r = (if c_status c =? 0 then 200 else c_status c)).
 Proof. exact buffered_never_mixed. Qed.
@@ -39,10 +64,11 @@ Print Assumptions C11_buffered_never_mixed.
 (* The same for every response in every history of buffered requests served against the shared buffer
    pool, whichever pooled buffer each request is handed: ReleaseBuffer's reset keeps earlier renders
    (including failed, partial ones) out of later responses. *)
-Theorem C11_pooled_all_or_nothing : forall (reqs : list (nat * cfg * outcome)) (n pick : nat) (c : cfg) (o : outcome) (w : rw),
-  nth_error reqs n = Some (pick, c, o) ->
+Theorem C11_pooled_all_or_nothing : forall (reqs : list (nat * request * cfg * component)) (n pick : nat) (q : request) (c : cfg) (k : component) (w : rw),
+  nth_error reqs n = Some (pick, q, c, k) ->
   nth_error (snd (serve_seq release_buffer [] reqs)) n = Some w ->
-  all_or_nothing (c_status c) (c_ctype c) (eh_alone c) (document o) (fails o) (observe w).
+  let o := k (q_ctx q) in
+  all_or_nothing (c_status c) (c_ctype c) (eh_alone q c) (document o) (fails o) (observe w).
 Proof. exact pooled_all_or_nothing. Qed.
 Print Assumptions C11_pooled_all_or_nothing.
 
@@ -62,70 +88,99 @@ Theorem C11_checker_is_specification : forall st ct eh doc failed r,
 Proof. exact all_or_nothing_b_spec. Qed.
 Print Assumptions C11_checker_is_specification.
 
+Theorem C11_wire_checker_is_specification : forall head st ct eh doc failed r,
+  all_or_nothing_wire_b head st ct eh doc failed r = true <-> all_or_nothing_wire head st ct eh doc failed r.
+Proof. exact all_or_nothing_wire_b_spec. Qed.
+Print Assumptions C11_wire_checker_is_specification.
+
 (* The contrast (documented behaviour of WithStreaming): with no error handler, a component that wrote
    anything and then failed leaves its bytes in front of the error message, under the configured or
    implicit success status ... *)
-Theorem C11_streamed_partial : forall (c : cfg) (o : outcome),
+Theorem C11_streamed_partial : forall (q : request) (c : cfg) (k : component),
+  let o := k (q_ctx q) in
   c_stream c = true -> c_errh c = None -> fails o = true -> (c_status c <> 0 \/ chunks o <> []) ->
-  let r := observe (serve c o) in
+  let r := observe (serve q c k) in
   r_status r = (if c_status c =? 0 then 200 else c_status c) /\
   hget h_ctype (r_hdr r) = Some (c_ctype c) /\
   r_body r = document o ++ err_body.
 Proof. exact streamed_partial. Qed.
 Print Assumptions C11_streamed_partial.
 
-(* ... so the streamed handler is not all-or-nothing. *)
-Theorem C11_streamed_may_be_partial : exists (c : cfg) (o : outcome),
+(* ... so the streamed handler is not all-or-nothing, whatever the request. *)
+Theorem C11_streamed_may_be_partial : forall q : request, exists (c : cfg) (o : outcome),
   c_stream c = true /\ fails o = true /\
-  r_status (observe (serve c o)) = 200 /\
-  r_body (observe (serve c o)) = bs "Hello" ++ err_body /\
-  ~ all_or_nothing (c_status c) (c_ctype c) (eh_alone c) (document o) (fails o) (observe (serve c o)).
+  r_status (observe (serve q c (fun _ => o))) = 200 /\
+  r_body (observe (serve q c (fun _ => o))) = bs "Hello" ++ err_body /\
+  ~ all_or_nothing (c_status c) (c_ctype c) (eh_alone q c) (document o) (fails o) (observe (serve q c (fun _ => o))).
 Proof. exact streamed_may_be_partial. Qed.
 Print Assumptions C11_streamed_may_be_partial.
 
 (* ---- non-vacuity and witnesses ---- *)
-Definition ex_cfg (eh : option (rw -> rw)) : cfg :=
+Definition ex_req (m : string) (s : ctx_state) : request :=
+  {| q_method := bs m; q_major := 1; q_minor := 1; q_target := bs "a=1"; q_hdr := [(bs "Accept", bs "*/*")]; q_body := []; q_ctx := s |}.
+Definition get := ex_req "GET" CtxLive.
+Definition always (o : outcome) : component := fun _ => o.
+Definition ex_cfg (eh : option (request -> rw -> rw)) : cfg :=
   {| c_status := 404; c_ctype := bs "text/html; charset=utf-8"; c_errh := eh; c_stream := false |}.
-Definition ex_eh : rw -> rw := run_ops [OSet (bs "X-Err") (bs "1"); OWriteHeader 400; OWrite (bs "custom body")].
+Definition ex_eh : request -> rw -> rw := run_ops [OSet (bs "X-Err") (bs "1"); OWriteHeader 400; OWrite (bs "custom body")].
 
 (* success: the whole document, status 404, the configured type *)
 Example C11_ex_success :
-  observe (serve (ex_cfg None) {| chunks := [bs "<p>"; bs "Hello"; bs "</p>"]; fails := false |})
+  observe (serve get (ex_cfg None) (always {| chunks := [bs "<p>"; bs "Hello"; bs "</p>"]; fails := false |}))
   = {| r_status := 404; r_hdr := [(h_ctype, bs "text/html; charset=utf-8")]; r_body := bs "<p>Hello</p>" |}.
 Proof. vm_compute. reflexivity. Qed.
 (* failure after two chunks, default error handling *)
 Example C11_ex_default_error :
-  observe (serve (ex_cfg None) {| chunks := [bs "<p>"; bs "Hello"]; fails := true |})
+  observe (serve get (ex_cfg None) (always {| chunks := [bs "<p>"; bs "Hello"]; fails := true |}))
   = {| r_status := 500; r_hdr := [(h_ctype, text_plain); (h_nosniff, nosniff)]; r_body := err_body |}.
 Proof. vm_compute. reflexivity. Qed.
 (* failure with an error handler that sets a header, a status and a body *)
 Example C11_ex_custom_error :
-  observe (serve (ex_cfg (Some ex_eh)) {| chunks := [bs "<p>"; bs "Hello"]; fails := true |})
+  observe (serve get (ex_cfg (Some ex_eh)) (always {| chunks := [bs "<p>"; bs "Hello"]; fails := true |}))
   = {| r_status := 400; r_hdr := [(h_ctype, bs "text/html; charset=utf-8"); (bs "X-Err", bs "1")]; r_body := bs "custom body" |}.
 Proof. vm_compute. reflexivity. Qed.
 (* an error handler that writes nothing: the implicit empty 200 is "exactly what it wrote" *)
 Example C11_ex_silent_error_handler :
-  observe (serve (ex_cfg (Some (run_ops []))) {| chunks := [bs "<p>"]; fails := true |})
+  observe (serve get (ex_cfg (Some (run_ops []))) (always {| chunks := [bs "<p>"]; fails := true |}))
   = {| r_status := 200; r_hdr := [(h_ctype, bs "text/html; charset=utf-8")]; r_body := [] |}.
 Proof. vm_compute. reflexivity. Qed.
 (* a history satisfying the hypotheses of the pooled theorem *)
 Example C11_ex_history :
-  let reqs := [(0%nat, ex_cfg None, {| chunks := [bs "SECRET"]; fails := true |});
-               (0%nat, ex_cfg None, {| chunks := [bs "Hi"]; fails := false |})] in
-  nth_error reqs 1 = Some (0%nat, ex_cfg None, {| chunks := [bs "Hi"]; fails := false |}) /\
+  let hi := always {| chunks := [bs "Hi"]; fails := false |} in
+  let reqs := [(0%nat, ex_req "HEAD" CtxLive, ex_cfg None, always {| chunks := [bs "SECRET"]; fails := true |});
+               (0%nat, get, ex_cfg None, hi)] in
+  nth_error reqs 1 = Some (0%nat, get, ex_cfg None, hi) /\
   option_map (fun w => r_body (observe w)) (nth_error (snd (serve_seq release_buffer [] reqs)) 1) = Some (bs "Hi").
 Proof. vm_compute. split; reflexivity. Qed.
 (* the reset in ReleaseBuffer is what the pooled theorem rests on: without it the partial output of a
    failed render is sent in front of the next document *)
 Example C11_ex_reset_needed :
-  let reqs := [(0%nat, ex_cfg None, {| chunks := [bs "SECRET"]; fails := true |});
-               (0%nat, ex_cfg None, {| chunks := [bs "Hi"]; fails := false |})] in
+  let reqs := [(0%nat, get, ex_cfg None, always {| chunks := [bs "SECRET"]; fails := true |});
+               (0%nat, get, ex_cfg None, always {| chunks := [bs "Hi"]; fails := false |})] in
   option_map (fun w => r_body (observe w)) (nth_error (snd (serve_seq release_buffer_noreset [] reqs)) 1) = Some (bs "SECRETHi").
 Proof. vm_compute. reflexivity. Qed.
 (* streamed with a configured status: a success status with an error body even when nothing was written *)
 Example C11_ex_streamed_status :
-  observe (serve {| c_status := 201; c_ctype := bs "text/html"; c_errh := None; c_stream := true |} {| chunks := []; fails := true |})
+  observe (serve get {| c_status := 201; c_ctype := bs "text/html"; c_errh := None; c_stream := true |} (always {| chunks := []; fails := true |}))
   = {| r_status := 201; r_hdr := [(h_ctype, bs "text/html")]; r_body := err_body |}.
+Proof. vm_compute. reflexivity. Qed.
+(* a HEAD for a failing component, as its client sees it: 500 and the headers of the error response, no body *)
+Example C11_ex_head_default_error :
+  client_view (ex_req "HEAD" CtxLive) (observe (serve (ex_req "HEAD" CtxLive) (ex_cfg None) (always {| chunks := [bs "<p>"]; fails := true |})))
+  = {| r_status := 500; r_hdr := [(h_ctype, text_plain); (h_nosniff, nosniff)]; r_body := [] |}.
+Proof. vm_compute. reflexivity. Qed.
+(* the response a handler that served HEAD through the streaming path would give (200, text/html) is rejected by the specification *)
+Example C11_ex_head_success_status_rejected :
+  all_or_nothing_wire_b true 404 (bs "text/html; charset=utf-8") None (bs "<p>") true
+    {| r_status := 404; r_hdr := [(h_ctype, bs "text/html; charset=utf-8")]; r_body := [] |} = false.
+Proof. vm_compute. reflexivity. Qed.
+(* an error handler that looks at the request, and a component that honours an already cancelled context:
+   nothing is rendered, the error handler answers *)
+Example C11_ex_request_aware :
+  let q := ex_req "PURGE" CtxCanceled in
+  observe (serve q (ex_cfg (Some (run_ops [OEcho (bs "X-Req"); OWriteHeader 499])))
+                 (comp_of true {| chunks := [bs "<p>never</p>"]; fails := false |}))
+  = {| r_status := 499; r_hdr := [(h_ctype, bs "text/html; charset=utf-8"); (bs "X-Req", bs "PURGE a=1 HTTP/1.1")]; r_body := [] |}.
 Proof. vm_compute. reflexivity. Qed.
 (* two requests in flight, then both return, then two more start: all single releases *)
 Example C11_ex_overlap_trace :
